@@ -21,6 +21,18 @@ def is_zero(x):
     return abs(x) < TOL
 
 
+def _wvalues(series):
+    """
+    Writeable view on a series' underlying values. Since pandas 3
+    (copy-on-write) ``Series.values`` hands out a read-only view, so
+    in-place writes must go through a view that is flagged writeable.
+    """
+    values = series.values
+    if not values.flags.writeable:
+        values.flags.writeable = True
+    return values
+
+
 class Node(object):
     """
     The Node is the main building block in bt's tree structure design.
@@ -731,14 +743,14 @@ class StrategyBase(Node):
         # won't change
         if newpt or not is_zero(self._value - val) or not is_zero(self._notl_value - notl_val):
             self._value = val
-            self._values.values[inow] = val
+            _wvalues(self._values)[inow] = val
 
             self._notl_value = notl_val
-            self._notl_values.values[inow] = notl_val
+            _wvalues(self._notl_values)[inow] = notl_val
 
             if self._bidoffer_set:
                 self._bidoffer_paid = bidoffer_paid
-                self._bidoffers_paid.values[inow] = bidoffer_paid
+                _wvalues(self._bidoffers_paid)[inow] = bidoffer_paid
 
             if self.fixed_income:
                 # For notional weights, we compute additive return
@@ -760,7 +772,7 @@ class StrategyBase(Node):
                         )
 
                 self._price = self._last_price + ret
-                self._prices.values[inow] = self._price
+                _wvalues(self._prices)[inow] = self._price
 
             else:
                 bottom = self._last_value + self._net_flows
@@ -786,7 +798,7 @@ class StrategyBase(Node):
                         )
 
                 self._price = self._last_price * (1 + ret)
-                self._prices.values[inow] = self._price
+                _wvalues(self._prices)[inow] = self._price
 
         # update children weights
         if self.children:
@@ -815,9 +827,9 @@ class StrategyBase(Node):
         # Cash should track the unallocated capital at the end of the day, so
         # we should update it every time we call "update".
         # Same for fees and flows
-        self._cash.values[inow] = self._capital
-        self._fees.values[inow] = self._last_fee
-        self._all_flows.values[inow] = self._net_flows
+        _wvalues(self._cash)[inow] = self._capital
+        _wvalues(self._fees)[inow] = self._last_fee
+        _wvalues(self._all_flows)[inow] = self._net_flows
 
         # update paper trade if necessary
         if self._paper_trade:
@@ -827,7 +839,7 @@ class StrategyBase(Node):
                 self._paper.update(date)
             # update price
             self._price = self._paper.price
-            self._prices.values[inow] = self._price
+            _wvalues(self._prices)[inow] = self._price
 
     @cy.locals(amount=cy.double, update=cy.bint, flow=cy.bint, fees=cy.double)
     def adjust(self, amount, update=True, flow=True, fee=0.0):
@@ -1410,14 +1422,14 @@ class SecurityBase(Node):
             elif data is not None:
                 prc = data[self.name]
                 self._price = prc
-                self._prices.values[inow] = prc
+                _wvalues(self._prices)[inow] = prc
 
             # update bid/offer
             if self._bidoffer_set:
                 self._bidoffer = self._bidoffers.values[inow]
                 self._bidoffer_paid = 0.0
 
-        self._positions.values[inow] = self._position
+        _wvalues(self._positions)[inow] = self._position
         self._last_pos = self._position
 
         if np.isnan(self._price):
@@ -1430,20 +1442,20 @@ class SecurityBase(Node):
 
         self._notl_value = self._value
 
-        self._values.values[inow] = self._value
-        self._notl_values.values[inow] = self._notl_value
+        _wvalues(self._values)[inow] = self._value
+        _wvalues(self._notl_values)[inow] = self._notl_value
 
         if is_zero(self._weight) and is_zero(self._position):
             self._needupdate = False
 
         # save outlay to outlays
         if self._outlay != 0:
-            self._outlays.values[inow] += self._outlay
+            _wvalues(self._outlays)[inow] += self._outlay
             # reset outlay back to 0
             self._outlay = 0
 
         if self._bidoffer_set:
-            self._bidoffers_paid.values[inow] = self._bidoffer_paid
+            _wvalues(self._bidoffers_paid)[inow] = self._bidoffer_paid
 
     @cy.locals(amount=cy.double, update=cy.bint, q=cy.double, outlay=cy.double, i=cy.int)
     def allocate(self, amount, update=True):
@@ -1726,7 +1738,7 @@ class FixedIncomeSecurity(SecurityBase):
 
         # For fixed income securities (bonds, swaps), notional value is position size, not value!
         self._notl_value = self._position
-        self._notl_values.values[inow] = self._notl_value
+        _wvalues(self._notl_values)[inow] = self._notl_value
 
 
 class CouponPayingSecurity(FixedIncomeSecurity):
@@ -1857,8 +1869,8 @@ class CouponPayingSecurity(FixedIncomeSecurity):
             self._holding_cost = 0.0
 
         self._capital = self._coupon - self._holding_cost
-        self._coupon_income.values[inow] = self._coupon
-        self._holding_costs.values[inow] = self._holding_cost
+        _wvalues(self._coupon_income)[inow] = self._coupon
+        _wvalues(self._holding_costs)[inow] = self._holding_cost
 
     @property
     def coupon(self):
@@ -1915,7 +1927,7 @@ class HedgeSecurity(SecurityBase):
         """
         super(HedgeSecurity, self).update(date, data, inow)
         self._notl_value = 0.0
-        self._notl_values.values.fill(0.0)
+        _wvalues(self._notl_values).fill(0.0)
 
 
 class CouponPayingHedgeSecurity(CouponPayingSecurity):
@@ -1936,7 +1948,7 @@ class CouponPayingHedgeSecurity(CouponPayingSecurity):
         """
         super(CouponPayingHedgeSecurity, self).update(date, data, inow)
         self._notl_value = 0.0
-        self._notl_values.values.fill(0.0)
+        _wvalues(self._notl_values).fill(0.0)
 
 
 class Algo(object):
